@@ -198,10 +198,20 @@ def run_case(case):
     single = sum(case["rs"]) % 7 == 0          # complex64 data path
     if single:
         x = x.astype(np.complex64)
-    x0, c0 = x.copy(), coord.copy()
+    lay = sum(case["rs"]) % 5
+    if lay == 1:
+        x = np.asfortranarray(x)                     # Fortran-ordered image
+    elif lay == 2 and x.ndim >= 2:
+        x = np.ascontiguousarray(x.T).T              # transposed view of a C array
+    elif lay == 3:
+        big = np.zeros(tuple(2 * n_ for n_ in x.shape), x.dtype)
+        sl = tuple(slice(None, None, 2) for _ in x.shape)
+        big[sl] = x
+        x = big[sl]                                  # strided view
+    x0, c0 = x.copy(order="C"), coord.copy()
     sig = "|".join(map(str, [nd, "".join("o" if g % 2 else "e" for g in grid), len(batch),
                              case["ccls"], case["img"], ov, w, "p2" if case["pts2d"] else "p1",
-                             "c64" if single else "c128"]))
+                             "c64" if single else "c128", "lay%d" % (sum(case["rs"]) % 5)]))
     wit = {k: case[k] for k in ("grid", "M", "batch", "ccls", "img", "oversamp", "width",
                                 "cseed", "pts2d")}
     wit["nd"] = nd
